@@ -50,10 +50,22 @@ def accept(ctx, traces):
     return res
 
 
-def run_stream(ctx, exe, cases, stream, use_model=True, shrink_budget=60, batch=4):
+def run_stream(ctx, exe, cases, stream, use_model=True, shrink_budget=60, batch=4, timeout=60):
     if not cases:
         return {}
-    impl = vlib.run_batched(ctx, exe, cases, batch=batch, timeout=240)
+    # run in chunks and stop at the first chunk in which the pair hangs (e.g. the server blocked for
+    # ever in its final read of notification bytes): a hang is a failure of the property, there is no
+    # point in waiting for the time-out of every remaining case
+    impl, hung = {}, False
+    for lo in range(0, len(cases), 32):
+        part = vlib.run_batched(ctx, exe, cases[lo:lo + 32], batch=batch, timeout=timeout)
+        impl.update(part)
+        if any(v[1] == "TIMEOUT" for k, v in part.items() if k != "_stderr"):
+            hung = True
+            cases = cases[:lo + 32]
+            break
+    if hung:
+        shrink_budget = min(shrink_budget, 12)
     ofail, traces = [], []
     outs = {}
     for cid, ops in cases:
@@ -85,7 +97,7 @@ def run_stream(ctx, exe, cases, stream, use_model=True, shrink_budget=60, batch=
         ctx.samples.append({"stream": stream, "ops": c[1][:14], "impl": outs[str(c[0])][:14]})
 
     def rerun(ops):
-        return vlib.run_batched(ctx, exe, [("r", ops)], batch=1, timeout=120)["r"][0]
+        return vlib.run_batched(ctx, exe, [("r", ops)], batch=1, timeout=20 if hung else 120)["r"][0]
 
     if ofail:
         ofail.sort(key=lambda x: len(x[1]))
@@ -195,6 +207,6 @@ def run(ctx):
                 return
         nf = ctx.scale(24, 300)
         free = [("f%d" % i, ipcgen.gen_free(ctx.rng, thorough=not ctx.quick())) for i in range(nf)]
-        run_stream(ctx, exe, free, "free-running", use_model=False, batch=1)
+        run_stream(ctx, exe, free, "free-running", use_model=False, batch=1, timeout=240)
     finally:
         cleanup_shm()
